@@ -33,7 +33,15 @@ EQUAL_BUT_DIFFERENT = [({"n": 1, "l": [0, 2]}, {"n": 1.0, "l": [0, 2]}), ({"n": 
                        ({"n": [1, 0]}, {"n": [True, False]}), ({"x": 2 ** 53}, {"x": float(2 ** 53)})]
 
 
+NEAR_PAIRS = [({"s": "caf\u00e9 \ud83d"}, {"s": "caf\u00e9 \udc00"}), ({"s": "x\ud800"}, {"s": "x?"}), ({"s": "\u00e9"}, {"s": "e\u0301"}),
+              ({"k\ud800": 1}, {"k\udfff": 1}), ({"t": "a"}, {"t": "a "}), ({"l": [1, 2]}, {"l": [2, 1]}), ({"n": "1"}, {"n": 1}),
+              ({"a": {"b": 1}}, {"a": {"b": 1, "c": None}}), ({"u": "\u2028"}, {"u": "\u2029"}), ({"e": ""}, {"e": None})]
+
+
 def payload_pair(r, stress):
+    if r.random() < 0.2:
+        a, b = r.choice(NEAR_PAIRS)               # payloads that differ minimally (what a lossy serializer would conflate)
+        return (copy.deepcopy(a), copy.deepcopy(b)) if r.random() < .5 else (copy.deepcopy(b), copy.deepcopy(a))
     if stress and r.random() < 0.25:
         a, b = r.choice(EQUAL_BUT_DIFFERENT)      # equal under Python's ==, different JSON values / canonical bytes
         return (copy.deepcopy(a), copy.deepcopy(b)) if r.random() < .5 else (copy.deepcopy(b), copy.deepcopy(a))
